@@ -582,6 +582,16 @@ fn backlog_cases(max_k: usize) -> Vec<Case> {
         }
     }
     let mut out = vec![];
+    // many commands queued *behind* the stop in the same batch: none of them may start
+    for m in [1usize, 40, 127, 128, 129, 200, 255, 256, 257, 300, 513] {
+        if m <= max_k.max(300) * 2 {
+            let mut cmds = vec![Cmd::S];
+            cmds.extend(std::iter::repeat(Cmd::F).take(m));
+            for subject in [Subject::ThreadArbiter, Subject::SystemArbiter, Subject::MtArbiter] {
+                out.push(Case { subject, cmds: cmds.clone(), batches: vec![m + 1], via: Via::Owner });
+            }
+        }
+    }
     for k in ks {
         for filler in [Cmd::F, Cmd::A] {
             let mut cmds = vec![filler; k];
